@@ -7,6 +7,7 @@
 package main
 
 import (
+	"context"
 	"encoding/json"
 	"fmt"
 	"os"
@@ -36,7 +37,7 @@ type propDef struct {
 
 var props = map[string]propDef{
 	"C20": {scenarios: conc.C20Scenarios, quick: []int{0, 1, 2}, thorough: []int{0, 1, 2, 3, -1}, quickS: 40, thoroughS: 300, pre: c20Sequential,
-		rule: "sequential part: BFS over all histories of {Write through core i, derive a core (With) from core i, bursts of capacity-1 / capacity / 2*capacity+1 writes through core i} for up to 3 cores; every history is run with GetLogs() called only at its end and with GetLogs() called after every event; each time it must equal, newest first, the last min(total, capacity) entries written through any core; thorough additionally recompiles the package with BufferSize=4 (overlay, one constant changed) so that wrap-around histories are enumerated completely. Concurrent part: every schedule with at most N preemptions of 2-3 threads writing through the root core and derived cores, optional reader: final buffer holds every entry exactly once in an order consistent with each thread's program order, concurrent reads never duplicate or miss a finished write"},
+		rule: "sequential part: BFS over all histories of {Write through core i, derive a core (With) from core i, bursts of capacity-1 / capacity / 2*capacity+1 writes through core i} for up to 3 cores; every history is run with GetLogs() called only at its end and with GetLogs() called after every event; each time it, and the lines printed by WriteLogs, must equal, newest first, the last min(total, capacity) entries written through any core; thorough additionally recompiles the package with BufferSize=4 (overlay, one constant changed) so that wrap-around histories are enumerated completely. Concurrent part: every schedule with at most N preemptions of 2-3 threads writing through the root core and derived cores, optional reader: final buffer holds every entry exactly once in an order consistent with each thread's program order, concurrent reads never duplicate or miss a finished write"},
 	"C16": {scenarios: conc.C16Scenarios, quick: []int{0, 1, 2}, thorough: []int{0, 1, 2, 3, 4}, quickS: 60, thoroughS: 600,
 		rule: "every schedule (scheduling point before every lock acquisition of the trie, the node stores, the change collector, the transaction/block/state caches and the LRUs; the SaveChanges worker goroutine is adopted by its caller's logical thread) of each 2-3 thread scenario with at most N preemptions, N iterated; per schedule brute-force linearizability: the observed results and the final root/content/missing-key count must equal those of some sequential execution (on a fresh real trie) of the same operations in an order consistent with the recorded call/return order; no deadlock (writer-preferring RWMutex modelled); non-trivial = distinct observed outcome"},
 	"C08": {scenarios: conc.C08Scenarios, quick: []int{0, 1, 2}, thorough: []int{0, 1, 2, 3, -1}, quickS: 40, thoroughS: 600,
@@ -281,12 +282,29 @@ func racePass(rep *rt.Report, id string, tier rt.Tier) {
 	if tier == rt.Thorough {
 		iters = "3000"
 	}
-	cmd := exec.Command(bin, id, iters)
+	if rep.NumViolations() > 0 {
+		rep.Set("auxiliary_race_pass", "skipped: the exploration itself already reports violations")
+		return
+	}
+	// the pass takes seconds; a run that is still going after the limit is blocked for good (a deadlock under
+	// the real sync package does not always make the runtime abort: timers and the race runtime keep threads alive)
+	limit := 10 * time.Minute
+	if tier == rt.Thorough {
+		limit = 60 * time.Minute
+	}
+	ctx, cancel := context.WithTimeout(context.Background(), limit)
+	defer cancel()
+	cmd := exec.CommandContext(ctx, bin, id, iters)
 	cmd.Env = append(os.Environ(), "GORACE=halt_on_error=1 exitcode=66")
 	var stderr strings.Builder
 	cmd.Stderr = &stderr
 	out, err := cmd.Output()
 	res := map[string]any{"iterations_per_scenario": iters, "note": "auxiliary, free-running, samples schedules; not the deciding step"}
+	if ctx.Err() == context.DeadlineExceeded {
+		rep.Violate(fmt.Sprintf("auxiliary free-running pass: the scenario bodies did not finish within %v under the real sync package (they take seconds): some goroutines block each other for ever; progress output: %s", limit, tailStr(stderr.String(), 600)), map[string]any{"race_pass": "timeout"})
+		rep.Set("auxiliary_race_pass", "timeout")
+		return
+	}
 	var parsed map[string]any
 	if json.Unmarshal(out, &parsed) == nil {
 		res["result"] = parsed
@@ -306,6 +324,13 @@ func racePass(rep *rt.Report, id string, tier rt.Tier) {
 		}
 	}
 	rep.Set("auxiliary_race_pass", res)
+}
+
+func tailStr(s string, n int) string {
+	if len(s) > n {
+		return s[len(s)-n:]
+	}
+	return s
 }
 
 func maxInt(a, b int) int {
